@@ -13,9 +13,18 @@ Inc(s) == [i \in 1..Len(s) |-> s[i] + 1]
 Ins(ev) == [i \in 1..Len(ev.ins) |-> [at |-> ev.ins[i].at, idx |-> Inc(ev.ins[i].idx)]]
 Pts(ev) == [i \in 1..Len(ev.lcs) |-> <<ev.lcs[i][1] + 1, ev.lcs[i][2] + 1>>]
 
+(* ev.ov names the overload that was called (0: iterators + lcs + ses + ses_len; 1-3: with explicit bases; 4, 5: without ses_len / *)
+(* without the common subsequence); an overload that does not return the length (seslen = -1) or the subsequence (hasLcs = FALSE)   *)
+(* is judged on what it returns.  Indices are relative to the beginning of the two sequences whatever the bases were.               *)
+SesLen(ev) == IF ev.seslen = -1 THEN ScriptLen(Inc(ev.del), Ins(ev)) ELSE ev.seslen
+Negative(ev) == \/ \E i \in 1..Len(ev.del) : ev.del[i] < 0
+                \/ \E i \in 1..Len(ev.ins) : ev.ins[i].at < 0 \/ \E k \in 1..Len(ev.ins[i].idx) : ev.ins[i].idx[k] < 0
+                \/ \E i \in 1..Len(ev.lcs) : ev.lcs[i][1] < 0 \/ ev.lcs[i][2] < 0
 Verdict(ev) ==
   IF ev.ret # "ok" THEN "bad:call-did-not-return"
-  ELSE IF ~ScriptCorrect(ev.a, ev.b, ev.mode, Inc(ev.del), Ins(ev), ev.seslen) THEN "bad:edit-script"
+  ELSE IF Negative(ev) THEN "bad:index-before-the-beginning-of-the-sequence"
+  ELSE IF ~ScriptCorrect(ev.a, ev.b, ev.mode, Inc(ev.del), Ins(ev), SesLen(ev)) THEN "bad:edit-script"
+  ELSE IF ~ev.hasLcs THEN "ok"
   ELSE IF LcsCorrect(ev.a, ev.b, ev.mode, Pts(ev)) THEN "ok"
   ELSE IF KF_C38_lcs(ev) THEN "kf:C38-lcs-points" ELSE "bad:lcs"
 
